@@ -13,6 +13,8 @@ NEUTRALS = [{'name': 'first-track guard as j < 1', 'file': 'partitura/io/exportm
 
 # changes made by sub-agents that were given only the property text (see /verif/seeded/<id>/): each must stay reported
 SEEDED = [
+    {'name': 'seeded change C06-r5b', 'seed': 'C06-r5b', 'expect': '|F7c|'},
+    {'name': 'seeded change C06-r5a', 'seed': 'C06-r5a', 'expect': '|F5e-pairing|'},
     {'name': 'seeded change C06-r4b', 'seed': 'C06-r4b', 'expect': '|VALID-dom|'},
     {'name': 'seeded change C06-r4a', 'seed': 'C06-r4a', 'expect': '|F5e-pairing|'},
     {'name': 'seeded change C06-r3', 'seed': 'C06-r3', 'expect': '|CARRY|'},
